@@ -419,6 +419,18 @@ def check_json_number(case):
             if name.startswith("parseYaml") and V.is_num(got) and exp == 0 and V.h2f(got["n"]) == 0:
                 continue
             raise Violation(f"number-misread:{name}", f"{name}({text[:80]!r}) = {V.show(got)}, correctly rounded value is {exp!r}")
+    # the same number text reached through YAML anchors and aliases (an anchored value, an anchored *key* - keys are strings, the
+    # alias in value position is a number again -, flow and block collections): the value, or an error, never an infinity
+    docs = [f"- &a {text}\n- *a\n", f"&k {text}: 1\nv: *k\n", f"{{a: &x {text}, b: *x}}", f"? &k {text}\n: 1\nv: [*k, *k]\n", f"[&a {text}, *a, *a]", f"a: &n {text}\nb: {{c: *n}}\n"]
+    res2 = util.eval_exprs([f"std.parseYaml({V.jsonnet_string(d)})" for d in docs], want=["typed"])
+    for d, r in zip(docs, res2):
+        if not util.is_ok(r):
+            continue
+        nums = [V.h2f(x["n"]) for x in V.walk(util.typed(r)) if V.is_num(x)]
+        if any(not math.isfinite(x) for x in nums):
+            raise Violation("nonfinite:parseYaml-alias", f"std.parseYaml({d[:80]!r}) contains a non-finite number: {V.show(util.typed(r))[:200]}")
+        if math.isfinite(exp) and any(x != exp and not (x == 1.0) for x in nums):
+            raise Violation("number-misread:parseYaml-alias", f"std.parseYaml({d[:80]!r}) = {V.show(util.typed(r))[:200]}, every number should be {exp!r}")
     return {"nontrivial": len(text) >= 16 or not math.isfinite(exp) or interesting(exp), "sample": text[:80]}
 
 
